@@ -608,6 +608,8 @@ fn eval_in(case: &CliCase, stats: &mut Counters, bin: &Path, dir: &Path) -> Opti
             if let Some(p) = punct {
                 args.extend(["--puncturing".to_string(), p.clone()]);
             }
+            // the output path already holds an earlier run's bytes
+            let _ = std::fs::write(dir.join("out.bin"), b"stale bytes of an earlier run");
             let inpath = dir.join("in.bin");
             let writer = match fifo_chunks {
                 None => {
@@ -1113,7 +1115,10 @@ fn check_ber_outputs(alist: &str, args: &[String], dir: &Path, out: &ProcOut, st
             }
         }
     }
-    let mut files = vec![("out.txt", false)];
+    let mut files = Vec::new();
+    if arg_val(args, "--output-file").is_some() {
+        files.push(("out.txt", false));
+    }
     if bch > 0 && arg_val(args, "--output-file-ldpc").is_some() {
         files.push(("out_ldpc.txt", true));
     }
@@ -1436,9 +1441,11 @@ fn gen_ber(g: &mut Stream) -> CliCase {
     };
     let m = random_code(g, k, r, tail, 2);
     let min = -2.0 + g.below(5) as f64 * 0.5;
-    let step = *g.pick(&[0.5, 1.0, 0.3, 0.25]);
+    // (also sweeps that go downwards, and steps finer than the two decimals the table shows:
+    // seeded changes C20-r8b-2 and C13-r8b-3)
+    let step = *g.pick(&[0.5, 1.0, 0.3, 0.25, 0.5, -0.5, -1.0, 0.004, 0.005]);
     let np = 1.0 + g.below(3) as f64;
-    let max = min + step * (np - 1.0) + *g.pick(&[0.0, 0.1, 0.2]);
+    let max = min + step * (np - 1.0) + step.signum() * *g.pick(&[0.0, 0.1, 0.2]) * if step.abs() < 0.01 { 0.01 } else { 1.0 };
     // 0 = fault-free; 1 pattern length, 2 interleaver columns, 3 8PSK symbol size do not fit;
     // 4 malformed pattern; 5 result file on a full device
     let fault = if g.chance(20, 100) { 1 + g.below(5) } else { 0 };
@@ -1488,6 +1495,12 @@ fn gen_ber(g: &mut Stream) -> CliCase {
     }
     if g.chance(1, 4) && k > 2 {
         args.extend(["--bch-max-errors".to_string(), "1".to_string(), "--output-file-ldpc".to_string(), "out_ldpc.txt".to_string()]);
+        // now and then only the LDPC-only file is asked for (seeded change C20-r8b-1)
+        if fault == 0 && g.chance(1, 3) {
+            if let Some(i) = args.iter().position(|a| a == "--output-file") {
+                args.drain(i..i + 2);
+            }
+        }
     }
     args.push("code.alist".into());
     // file faults through the seam (only on otherwise fault-free cases): transparent ones (EINTR,
